@@ -53,6 +53,11 @@ def sym(*xs):
     return any(isinstance(x, z3.ExprRef) for x in xs)
 
 
+def Label_sort():
+    from vf.pyvc.engine import LabelSort
+    return LabelSort
+
+
 def same_int(a, b):
     ok = lambda x: (isinstance(x, int) and not isinstance(x, bool)) or (isinstance(x, z3.ArithRef) and x.is_int())
     if ok(a) and ok(b):
@@ -110,6 +115,57 @@ def wf_sym(Z, A, Ldom, Lval, min_int, zero):
                   z3.ForAll([w], z3.Implies(z3.Select(STATIC, w), w < M0)), M0 <= m,
                   z3.ForAll([w], z3.Implies(w >= m, z3.Select(zero, w)))]
     return z3.And(*parts)
+
+
+def get_wire_post_sym(pre, post, st, restored, wt, reset, zero):
+    """postcondition of get_wire(state, restored) -> (w, ops) over the abstract state; `reset`: ops is exactly one reset measurement of w
+    (otherwise ops is empty).  Used as the verified postcondition of the real method AND as its contract at the call site in _new_ops."""
+    Z0, A0, D0, V0, m0 = pre
+    Z1, A1, D1, V1, m1 = post
+    reset = z3.BoolVal(reset) if isinstance(reset, bool) else reset
+    from_z = z3.And(z3.Length(Z0) > 0, wt == Z0[z3.Length(Z0) - 1], Z1 == z3.Extract(Z0, 0, z3.Length(Z0) - 1), A1 == A0)
+    from_a = z3.And(z3.Length(A0) > 0, wt == A0[z3.Length(A0) - 1], A1 == z3.Extract(A0, 0, z3.Length(A0) - 1), Z1 == Z0)
+    if m0 is None:
+        if m1 is not None:
+            return z3.BoolVal(False)
+        minted, m_same = z3.BoolVal(False), z3.BoolVal(True)
+    else:
+        if m1 is None:
+            return z3.BoolVal(False)
+        minted = z3.And(wt == m0, Z1 == Z0, A1 == A0, S._t(m1) == m0 + 1)
+        m_same = S._t(m1) == m0
+    rec = z3.Select(V1, wt)
+    zero_at_handout = z3.Or(reset, z3.Select(zero, wt))
+    return z3.And(
+        z3.Not(z3.Select(D0, wt)), D1 == z3.Store(D0, wt, True), V1 == z3.Store(V0, wt, rec),        # exactly one new loan
+        z3.Or(rec == ZERO_, rec == ANY_),
+        z3.Implies(rec == ZERO_, z3.And(S._t(restored), zero_at_handout)),                              # the loan record is sound
+        z3.Or(from_z, from_a, minted), z3.Or(minted, m_same),                                            # LIFO pop / fresh wire
+        z3.Or(z3.Select(SETOF(Z0), wt), z3.Select(SETOF(A0), wt), minted),
+        z3.Implies(st == ZERO_, zero_at_handout), z3.Implies(reset, st == ZERO_),                        # |0> when requested
+        z3.Implies(z3.Select(STATIC, wt), z3.Select(GIVEN, wt)),                                         # static wire only if handed in
+        wf_sym(*post, zero))
+
+
+def cannot_supply_sym(Z, A, allow_resets, min_int, st):
+    if min_int is not None:
+        return z3.BoolVal(False)
+    return z3.Or(z3.And(z3.Length(Z) == 0, z3.Length(A) == 0), z3.And(st == ZERO_, z3.Not(allow_resets), z3.Length(Z) == 0))
+
+
+def return_wire_post_sym(pre, post, w, zero):
+    """postcondition of return_wire(w) and the ghost update of Zero: a wire recorded as ZERO comes back in |0> (the user's `restored`
+    promise); for a wire recorded as ANY nothing is known"""
+    Z0, A0, D0, V0, m0 = pre
+    Z1, A1, D1, V1, m1 = post
+    reg = z3.Select(V0, w)
+    zero1 = z3.Store(zero, w, reg == ZERO_)
+    to_z = z3.And(reg == ZERO_, Z1 == z3.Concat(Z0, z3.Unit(w)), A1 == A0)
+    to_a = z3.And(reg == ANY_, A1 == z3.Concat(A0, z3.Unit(w)), Z1 == Z0)
+    if (m0 is None) != (m1 is None):
+        return z3.BoolVal(False), zero1
+    same_m = z3.BoolVal(True) if m0 is None else S._t(m0) == S._t(m1)
+    return z3.And(D1 == z3.Store(D0, w, False), z3.Or(to_z, to_a), same_m, wf_sym(*post, zero1)), zero1
 
 
 # ---------------------------------------------------------------------------------------------- symbolic values with own extraction
@@ -308,8 +364,7 @@ def build(tier, seed):
             return (not v["Z"] and not v["A"]) or (st == ZERO_ and not v["resets"] and not v["Z"])
         Z, A, _, _, _ = parts(o.self)
         st = o.state if for_state is None else for_state
-        return z3.Or(z3.And(z3.Length(Z) == 0, z3.Length(A) == 0),
-                     z3.And(S._t(st) == ZERO_, z3.Not(o.self.allow_resets), z3.Length(Z) == 0))
+        return cannot_supply_sym(Z, A, o.self.allow_resets, None, S._t(st))
 
     def unchanged(o, nw):
         if is_nat(o.self):
@@ -348,35 +403,14 @@ def build(tier, seed):
                 zero_ok = (no_ops(ops) and was_zero) or reset_of(ops, w) if st == ZERO_ else no_ops(ops)
                 m_ok = minted or a["m"] == b["m"]
                 return bool(stacks and loans and rec_ok and zero_ok and m_ok and wf_native(a))
-            Z0, A0, D0, V0, m0 = parts(o.self)
-            Z1, A1, D1, V1, m1 = parts(nw.self)
             st = S._t(o.state if fixed_state is None else fixed_state)
-            wt = S._t(w)
-            from_z = z3.And(z3.Length(Z0) > 0, wt == Z0[z3.Length(Z0) - 1], Z1 == z3.Extract(Z0, 0, z3.Length(Z0) - 1), A1 == A0)
-            from_a = z3.And(z3.Length(A0) > 0, wt == A0[z3.Length(A0) - 1], A1 == z3.Extract(A0, 0, z3.Length(A0) - 1), Z1 == Z0)
-            if m0 is None:
-                minted, m_same = z3.BoolVal(False), m1 is None
-            else:
-                minted = z3.And(wt == m0, Z1 == Z0, A1 == A0, S._t(m1) == m0 + 1)
-                m_same = S._t(m1) == m0
-            was_zero = z3.Or(z3.Select(ZERO0, wt))
-            rst = reset_of(ops, w)
-            rec = z3.Select(V1, wt)
             if no_ops(ops):
-                zero_ok = z3.If(st == ZERO_, z3.Select(ZERO0, wt), z3.BoolVal(True))
-                zero_at_handout = z3.Select(ZERO0, wt)
+                reset = False
             else:
-                zero_ok = And(rst, st == ZERO_)
-                zero_at_handout = S._t(rst) if isinstance(rst, bool) else rst
-            return And(
-                z3.Not(z3.Select(D0, wt)), D1 == z3.Store(D0, wt, True), V1 == z3.Store(V0, wt, rec),        # exactly one new loan
-                z3.Or(rec == ZERO_, rec == ANY_),
-                z3.Implies(rec == ZERO_, z3.And(S._t(restored), zero_at_handout)),                              # loan record is sound
-                z3.Or(from_z, from_a, minted), z3.Or(minted, m_same),                                            # LIFO pop / fresh wire
-                z3.Or(z3.Select(SETOF(Z0), wt), z3.Select(SETOF(A0), wt), minted),
-                zero_ok,                                                                                         # |0> when requested
-                z3.Implies(z3.Select(STATIC, wt), z3.Select(GIVEN, wt)),                                         # static wire only if handed in
-                wf_of(nw.self))
+                reset = reset_of(ops, w)
+                if reset is False:
+                    return False
+            return get_wire_post_sym(parts(o.self), parts(nw.self), st, restored, S._t(w), reset, ZERO0)
         return post
 
     def get_axioms(o, r, nw):
@@ -447,16 +481,8 @@ def build(tier, seed):
             reg = b["L"][o.wire]
             return r is None and a["L"] == {k: v for k, v in b["L"].items() if k != o.wire} and a["m"] == b["m"] and wf_native(a) and \
                 a["Z"] == b["Z"] + ([o.wire] if reg == ZERO_ else []) and a["A"] == b["A"] + ([o.wire] if reg == ANY_ else [])
-        Z0, A0, D0, V0, m0 = parts(o.self)
-        Z1, A1, D1, V1, m1 = parts(nw.self)
-        w = S._t(o.wire)
-        reg = z3.Select(V0, w)
-        # ghost update of Zero: a wire recorded as ZERO comes back in |0> (the user's `restored` promise); otherwise nothing is known
-        zero1 = z3.Store(ZERO0, w, reg == ZERO_)
-        to_z = z3.And(reg == ZERO_, Z1 == z3.Concat(Z0, z3.Unit(w)), A1 == A0)
-        to_a = z3.And(reg == ANY_, A1 == z3.Concat(A0, z3.Unit(w)), Z1 == Z0)
-        same_m = (m0 is None and m1 is None) or (m0 is not None and m1 is not None and same_int(m0, m1))
-        return And(r is None, D1 == z3.Store(D0, w, False), z3.Or(to_z, to_a), same_m, wf_of(nw.self, zero1))
+        f, _ = return_wire_post_sym(parts(o.self), parts(nw.self), S._t(o.wire), ZERO0)
+        return And(r is None, f)
     for mn in (False, True):
         contracts.append(FnContract(wm, "_WireManager.return_wire", [
             Case("min_int None" if mn else "min_int given", {"self": mgr_type(mn), "wire": Int}, ghost=mgr_ghost, requires=ret_requires,
@@ -516,6 +542,486 @@ def build(tier, seed):
                  {"self": blank, "zeroed": SeqT(Int, tuple=True), "any_state": SeqT(Int, tuple=True), "min_int": NoneV if mn else Int,
                   "allow_resets": Bool}, ghost=mgr_ghost, requires=init_requires(mn), ensures=post_init(mn), native_call=init_call,
                  native_gen=init_gen(mn))]))
+
+    # ============================================================================================== _new_ops
+    OP_SRC = (
+        "class Op:\n"
+        "    @property\n"
+        "    def name(self):\n"
+        "        if self.kind == 0:\n"
+        "            return 'Allocate'\n"
+        "        if self.kind == 1:\n"
+        "            return 'Deallocate'\n"
+        "        return 'Gate'\n"
+        "    @property\n"
+        "    def hyperparameters(self):\n"
+        "        return {'state': self.state, 'restored': self.restored}\n"
+        "    def map_wires(self, wire_map):\n"
+        "        return self\n")
+    OP_FIELDS = {"kind": Int, "wires": SeqT(Label), "state": Int, "restored": Bool, "target": Int}
+    RESET_KIND = 7          # the operator record standing for the reset measurement returned by get_wire (target = the wire)
+    LSet = z3.ArraySort(Label_sort(), z3.BoolSort())
+
+    class DSet(Model):
+        """the `deallocated` set (dynamic wires): only add / intersection / truthiness are used by the code"""
+
+        def __init__(self, term):
+            self.term = term
+            outer = self
+
+            class _Add(Model):
+                def vf_call(self, it, args, kw):
+                    outer.term = z3.Store(outer.term, args[0], True)
+                    return None
+
+            class _Inter(Model):
+                def vf_call(self, it, args, kw):
+                    # size of deallocated & set(op.wires): uninterpreted, 0 when nothing was deallocated
+                    n = z3.Int(it.ctx.fresh_name("n_common"))
+                    it.ctx.assume(z3.And(n >= 0, z3.Implies(outer.term == z3.K(Label_sort(), z3.BoolVal(False)), n == 0)))
+                    return n
+            self.add, self.intersection = _Add(), _Inter()
+
+        def snapshot(self):
+            return DSet(self.term)
+
+        def concretize_with(self, world, model):
+            return {"__dset__": True}
+
+    def mc_get(it, args, kwargs):
+        """_WireManager.get_wire by its contract (verified above on the real method)"""
+        self_ = args[0]
+        state, restored = kwargs.get("state", args[1] if len(args) > 1 else None), kwargs.get("restored", args[2] if len(args) > 2 else None)
+        ctx = it.ctx
+        zero = ctx.ghost["zero"]
+        pre = nparts(self_)
+        st = to_int_term(state)
+        ctx.prove(z3.And(wf_sym(*pre, zero), z3.Or(st == ZERO_, st == ANY_)), "pre-call:_WireManager.get_wire")
+        cs = cannot_supply_sym(pre[0], pre[1], self_.f["allow_resets"], pre[4], st)
+        if ctx.branch(cs):
+            raise RaiseExc("AllocationError")
+        w = z3.Int(ctx.fresh_name("wire"))
+        Z1, A1 = z3.Const(ctx.fresh_name("Z"), ISeq), z3.Const(ctx.fresh_name("A"), ISeq)
+        D1, V1 = z3.Const(ctx.fresh_name("L.dom"), ISet), z3.Const(ctx.fresh_name("L.val"), z3.ArraySort(I_, I_))
+        m1 = None if pre[4] is None else z3.Int(ctx.fresh_name("min_int"))
+        reset = ctx.branch(z3.Bool(ctx.fresh_name("reset_emitted")))
+        ctx.assume(get_wire_post_sym(pre, (Z1, A1, D1, V1, m1), st, restored, w, reset, zero))
+        self_.f["Z"].term, self_.f["A"].term = Z1, A1
+        self_.f["L"].dom, self_.f["L"].val = D1, V1
+        self_.f["min_int"] = m1
+        if reset:
+            rec = Rec(wn.classes["Op"], {"kind": RESET_KIND, "wires": SeqV(z3.Empty(z3.SeqSort(Label_sort())), Label), "state": 0,
+                                         "restored": False, "target": w})
+            ops = SeqV(z3.Unit(wn.box(rec, RecT("Op"))), RecT("Op"))
+        else:
+            ops = SeqV(z3.Empty(z3.SeqSort(wn.sort_of(RecT("Op")))), RecT("Op"))
+        return (w, ops)
+
+    def mc_ret(it, args, kwargs):
+        """_WireManager.return_wire by its contract; updates the ghost Zero set (the `restored` promise)"""
+        self_, wire = args
+        ctx = it.ctx
+        zero = ctx.ghost["zero"]
+        pre = nparts(self_)
+        w = to_int_term(wire)
+        ctx.prove(z3.And(wf_sym(*pre, zero), z3.Select(pre[2], w)), "pre-call:_WireManager.return_wire")
+        Z1, A1 = z3.Const(ctx.fresh_name("Z"), ISeq), z3.Const(ctx.fresh_name("A"), ISeq)
+        D1 = z3.Const(ctx.fresh_name("L.dom"), ISet)
+        f, zero1 = return_wire_post_sym(pre, (Z1, A1, D1, pre[3], pre[4]), w, zero)
+        ctx.assume(f)
+        self_.f["Z"].term, self_.f["A"].term, self_.f["L"].dom = Z1, A1, D1
+        ctx.ghost["zero"] = zero1
+        return None
+
+    def mc_map_wires(it, args, kwargs):
+        return fresh(it.ctx, RecT("Op"), "mapped_op")
+
+    def b_set(it, args, kw):
+        return Model()
+
+    wn = World(RDW, classes={"_WireManager": {"Z": SeqT(Int), "A": SeqT(Int), "L": NoneV, "min_int": Int, "allow_resets": Bool},
+                             "AllocateState": (ALLOC, {})},
+               stubs={"Op": (OP_SRC, OP_FIELDS)}, functions=["_new_ops"],
+               modular={"_WireManager.get_wire": mc_get, "_WireManager.return_wire": mc_ret, "Op.map_wires": mc_map_wires},
+               extra_builtins={"method:pop": b_map_pop, "truthy": b_truthy, "set": b_set})
+
+    def nparts(mgr):
+        return mgr.f["Z"].term, mgr.f["A"].term, mgr.f["L"].dom, mgr.f["L"].val, mgr.f["min_int"]
+
+    def nmgr_type(mn):
+        return T("rec", "_WireManager", override={"L": T("build", fresh_loans, gen=lambda rng: {"__loans__": []}), "min_int": NoneV if mn else Int})
+
+    def live_ok(wm_, D):
+        """wire_map is injective and maps into the loaned wires: no two live dynamic wires share a concrete wire, and (with the
+        manager's disjointness of dom L from the free stacks) no live wire can be handed out again"""
+        d1, d2 = z3.Consts("d1 d2", Label_sort())
+        return z3.And(z3.ForAll([d1], z3.Implies(z3.Select(wm_.dom, d1), z3.Select(D, z3.Select(wm_.val, d1)))),
+                      z3.ForAll([d1, d2], z3.Implies(z3.And(z3.Select(wm_.dom, d1), z3.Select(wm_.dom, d2), d1 != d2),
+                                                     z3.Select(wm_.val, d1) != z3.Select(wm_.val, d2))))
+
+    def new_ops_inv(mgr, wire_map, zero):
+        return z3.And(wf_sym(*nparts(mgr), zero), live_ok(wire_map, mgr.f["L"].dom))
+
+    def states_ok(ops_term):
+        i = z3.Int("oi")
+        OpS = wn.sort_of(RecT("Op"))
+        st = OpS.accessor(0, list(OP_FIELDS).index("state"))
+        return z3.ForAll([i], z3.Implies(z3.And(i >= 0, i < z3.Length(ops_term)), z3.And(st(ops_term[i]) >= 0, st(ops_term[i]) <= 3)))
+
+    ncell = {}
+
+    def new_ops_ghost(ctx, a):
+        ncell["ctx"] = ctx
+        ctx.class_state = dict(ENUM)
+        ctx.ghost["zero"] = ZERO0
+        ncell["wire_map"], ncell["deallocated"], ncell["manager"] = a.wire_map, a.deallocated, a.manager
+
+    def keep_identity(which):
+        """loop cut: havoc the CONTENTS of an object the body mutates, keeping its identity (it is a parameter the caller observes)"""
+        def ctor(ctx, name):
+            obj = ncell[which]
+            if which == "wire_map":
+                obj.dom = z3.Const(ctx.fresh_name("wire_map.dom"), obj.dom.sort())
+                obj.val = z3.Const(ctx.fresh_name("wire_map.val"), obj.val.sort())
+            elif which == "deallocated":
+                obj.term = z3.Const(ctx.fresh_name("deallocated"), LSet)
+            else:
+                obj.f["Z"].term, obj.f["A"].term = z3.Const(ctx.fresh_name("Z"), ISeq), z3.Const(ctx.fresh_name("A"), ISeq)
+                obj.f["L"].dom = z3.Const(ctx.fresh_name("L.dom"), ISet)
+                obj.f["L"].val = z3.Const(ctx.fresh_name("L.val"), z3.ArraySort(I_, I_))
+                if obj.f["min_int"] is not None:
+                    obj.f["min_int"] = z3.Int(ctx.fresh_name("min_int"))
+            return obj
+        return T("build", ctor)
+
+    def loop_spec(extra=None):
+        def inv(v):
+            base = new_ops_inv(v.manager, v.wire_map, v.ghost.zero)
+            return base if extra is None else z3.And(base, extra(v))
+        ls = LoopSpec(inv, types={"wire_map": keep_identity("wire_map"), "deallocated": keep_identity("deallocated")})
+        ls.ghost_types = {"zero": T("build", lambda ctx, name: z3.Const(ctx.fresh_name("Zero"), ISet)), "~manager": keep_identity("manager")}
+        return ls
+
+    def in_alloc(v):
+        st = S._t(v.state)
+        return z3.Or(st == ZERO_, st == ANY_)
+
+    def new_ops_requires(a):
+        if isinstance(a.manager, Rec):
+            return z3.And(new_ops_inv(a.manager, a.wire_map, ZERO0), states_ok(a.operations.term))
+        return wf_native(view(a.manager)) and live_native(a.manager, a.wire_map)
+
+    def live_native(mgr, wire_map):
+        vals = list(wire_map.values())
+        return len(set(vals)) == len(vals) and all(x in mgr._loaned for x in vals)
+
+    def new_ops_post(o, r, nw):
+        if isinstance(nw.manager, Rec):
+            Z, A, _, _, _ = nparts(nw.manager)
+            d = z3.Const("dq", Label_sort())
+            wmap = nw.wire_map
+            off_free = z3.ForAll([d], z3.Implies(z3.Select(wmap.dom, d), z3.And(z3.Not(z3.Select(SETOF(Z), z3.Select(wmap.val, d))),
+                                                                               z3.Not(z3.Select(SETOF(A), z3.Select(wmap.val, d))))))
+            return z3.And(new_ops_inv(nw.manager, nw.wire_map, ncell["ctx"].ghost["zero"]), off_free)
+        v = view(nw.manager)
+        free = set(v["Z"]) | set(v["A"])
+        return wf_native(v) and live_native(nw.manager, nw.wire_map) and not (free & set(nw.wire_map.values()))
+
+    def dealloc_of_dead_wire(o):
+        """malformed program: some Deallocate names a dynamic wire that is not live at that point"""
+        if isinstance(o.manager, Rec):
+            return True          # symbolic side: KeyError can only come from wire_map.pop (every other lookup is covered by a pre-call VC)
+        live = set(o.wire_map)
+        for op in o.operations:
+            if op.name == "Allocate":
+                live |= set(op.wires)
+            elif op.name == "Deallocate":
+                for w in op.wires:
+                    if w not in live:
+                        return True
+                    live.discard(w)
+        return False
+
+    class NOp:
+        """native stand-in of an operator: _new_ops only uses name, wires, hyperparameters, map_wires"""
+
+        def __init__(self, kind, wires, state=None, restored=False):
+            self.name = {0: "Allocate", 1: "Deallocate"}.get(kind, "Gate")
+            self.wires, self.hyperparameters = list(wires), ({"state": state, "restored": restored} if kind == 0 else {})
+
+        def map_wires(self, wire_map):
+            new = copy.copy(self)
+            new.wires = [wire_map.get(w, w) for w in self.wires]
+            return new
+
+    def new_ops_gen(mn):
+        def gen(rng, m):
+            m = dict(m)
+            if rng is not None:
+                st = random_state(rng, mn)
+                loans = [k for k, _ in st["_loaned"]["__loans__"]]
+                dyn = [f"d{i}" for i in range(5)]
+                wire_map = {d: k for d, k in zip(dyn, loans)}
+                live, ops = set(wire_map), []
+                for _ in range(rng.choice([1, 2, 3, 4, 6])):
+                    c = rng.random()
+                    free_dyn = [d for d in dyn if d not in live]
+                    if c < 0.45 and free_dyn:
+                        k = rng.choice([1, 1, 2]) if len(free_dyn) > 1 else 1
+                        ws = free_dyn[:k]
+                        live |= set(ws)
+                        ops.append(NOp(0, ws, enum_of(None, rng.choice([0, 0, 1])), rng.random() < 0.5))
+                    elif c < 0.8 and live:
+                        w = rng.choice(sorted(live))
+                        live.discard(w)
+                        ops.append(NOp(1, [w]))
+                    else:
+                        ops.append(NOp(2, [rng.choice(dyn + [0, 1])]))
+                mgr = native_manager(dict(_registers=st["_registers"], _loaned=st["_loaned"], min_int=st["min_int"], allow_resets=st["allow_resets"]), mn)
+                m.update(operations=ops, manager=mgr, wire_map=wire_map, deallocated=set())
+                return m
+            mg = m["manager"]
+            mgr = native_manager(dict(_registers={"zero": mg.get("Z") or [], "any": mg.get("A") or []}, _loaned=mg.get("L") or {},
+                                      min_int=mg.get("min_int"), allow_resets=mg.get("allow_resets")), mn)
+            ops = [NOp(int(x.get("kind", 2)), x.get("wires") or [], enum_of(None, int(x.get("state", 0)) % 4), bool(x.get("restored")))
+                   for x in (m.get("operations") or [])]
+            wmap = m.get("wire_map") or {}
+            wmap = {k: int(v) for k, v in (wmap.get("__map__", []) if isinstance(wmap, dict) and "__map__" in wmap else [])}
+            m.update(operations=ops, manager=mgr, wire_map=wmap, deallocated=set())
+            return m
+        return gen
+
+    for mn in (False, True):
+        cs = Case("min_int None" if mn else "min_int given",
+                  {"operations": SeqT(RecT("Op")), "manager": nmgr_type(mn), "wire_map": MapT(Label, Int),
+                   "deallocated": T("build", lambda ctx, name: DSet(z3.Const(ctx.fresh_name("deallocated"), LSet)), gen=lambda rng: {"__dset__": True})},
+                  yields=RecT("Op"), ghost=new_ops_ghost, requires=new_ops_requires, ensures=new_ops_post,
+                  raises={"AllocationError": lambda o: True, "KeyError": dealloc_of_dead_wire},
+                  loops={0: loop_spec(), 1: loop_spec(), 2: loop_spec()}, native_gen=new_ops_gen(mn))
+        cs.exc_ensures = lambda name, o, nw: new_ops_post(o, None, nw)
+        contracts.append(FnContract(wn, "_new_ops", [cs]))
+
+    # ============================================================================================== resolve_dynamic_wires (set-up part)
+    class StopAfterCall(Exception):
+        pass
+    TAPE_SRC = "class Tape:\n    pass\n"
+    rcell = {}
+
+    def mc_stop(it, args, kwargs):
+        """_new_ops is verified above: here only the arguments it is started with are observed"""
+        it.ctx.ghost["new_ops_args"] = list(args)
+        raise RaiseExc("StopAfterCall")
+
+    wr = World(RDW, classes={"_WireManager": {"_registers": NoneV, "_loaned": NoneV, "min_int": Int, "allow_resets": Bool},
+                             "AllocateState": (ALLOC, {})},
+               stubs={"Tape": (TAPE_SRC, {"operations": Label, "measurements": Label})}, functions=["resolve_dynamic_wires", "_new_ops"],
+               modular={"_new_ops": mc_stop})
+
+    def setup_ghost(ctx, a):
+        rcell["ctx"] = ctx
+        ctx.class_state = dict(ENUM)
+
+    def setup_ok(name, o, nw):
+        if not isinstance(o.tape, Rec):
+            ops, mgr, wmap, dealloc = nw.tape.seen
+            v = view(mgr)
+            return ops is nw.tape.operations and v["Z"] == list(o.zeroed) and v["A"] == list(o.any_state) and v["L"] == {} and \
+                v["m"] == o.min_int and v["resets"] == o.allow_resets and wmap == {} and isinstance(wmap, dict) and dealloc == set() and \
+                isinstance(dealloc, set)
+        seen = rcell["ctx"].ghost.get("new_ops_args")
+        if not seen or len(seen) != 4:
+            return False
+        ops, mgr, wmap, dealloc = seen
+        if not (isinstance(mgr, Rec) and mgr.cls.name == "_WireManager" and isinstance(wmap, dict) and not wmap):
+            return False
+        from vf.pyvc.engine import SetV
+        if not (isinstance(dealloc, SetV) and dealloc.term is None):
+            return False
+        regs, L = mgr.f["_registers"], mgr.f["_loaned"]
+        if not (isinstance(regs, dict) and set(regs) == {ZERO_, ANY_} and isinstance(L, dict) and not L):
+            return False
+        mi = mgr.f["min_int"]
+        m_ok = (mi is None and o.min_int is None) or same_int(mi, o.min_int)
+        return And(ops is nw.tape.f["operations"], regs[ZERO_].term == o.zeroed.term, regs[ANY_].term == o.any_state.term, m_ok,
+                   S._t(mgr.f["allow_resets"]) == S._t(o.allow_resets))
+
+    class NTape:
+        def __init__(self, wires=(), operations=None):
+            self.wires, self.operations, self.measurements, self.seen = list(wires), operations if operations is not None else [object()], [], None
+
+    def setup_call(mod, args):
+        tape = args["tape"]
+
+        def recorder(*a):
+            tape.seen = a
+            raise StopAfterCall()
+        saved = mod._new_ops
+        mod._new_ops = recorder
+        try:
+            return mod.resolve_dynamic_wires.tape_transform(tape, zeroed=args["zeroed"], any_state=args["any_state"], min_int=args["min_int"],
+                                                            allow_resets=args["allow_resets"])
+        finally:
+            mod._new_ops = saved
+
+    def setup_gen(mn):
+        def gen(rng, m):
+            m = dict(m, tape=NTape(), zeroed=tuple(int(x) for x in m["zeroed"]), any_state=tuple(int(x) for x in m["any_state"]))
+            if mn:
+                m["min_int"] = None
+            return m
+        return gen
+    for mn in (False, True):
+        cs = Case("manager and maps handed to _new_ops, " + ("min_int None" if mn else "min_int given"),
+                  {"tape": RecT("Tape"), "zeroed": SeqT(Int, tuple=True), "any_state": SeqT(Int, tuple=True), "min_int": NoneV if mn else Int,
+                   "allow_resets": Bool}, ghost=setup_ghost, ensures=lambda o, r, nw: False, raises={"StopAfterCall": lambda o: True},
+                  must_return=lambda o: False, native_call=setup_call, native_gen=setup_gen(mn))
+        cs.exc_ensures = setup_ok
+        contracts.append(FnContract(wr, "resolve_dynamic_wires", [cs]))
+
+    # ============================================================================================== device call site (size-bounded)
+    # device_resolve_dynamic_wires supplies zeroed / min_int: checked against the allocator's precondition (Given disjoint from the
+    # static wires and duplicate-free; every static wire that is equal to an integer is < min_int).  Wires: int labels, other
+    # labels (never equal to an int), and -- finding F24 -- floats with an integral value (equal to that int, but not `isinstance int`).
+    from vf.pyvc.engine import TupleT, FloatV
+    FInt = T("float", integral=True)
+    pcell = {}
+    RESULT = Model()
+
+    def rec_resolve(it, args, kwargs):
+        it.ctx.ghost["call"] = (list(args), dict(kwargs))
+        if it.ctx.branch(z3.Bool(it.ctx.fresh_name("allocation_fails"))):
+            raise RaiseExc("AllocationError")
+        return RESULT
+
+    def b_max(it, args, kw):
+        items = it.iter_concrete(args[0]) if len(args) == 1 else list(args)
+        if not items and "default" in kw:
+            return kw["default"]
+        return it._minmax([PyList(items)] if len(args) == 1 else args, {}, True)
+
+    wp = World(PRE, functions=["device_resolve_dynamic_wires"], stubs={"Tape": (TAPE_SRC, {"wires": NoneV})},
+               extra_builtins={"resolve_dynamic_wires": rec_resolve, "max": b_max})
+
+    def site_ghost(ctx, a):
+        pcell["ctx"] = ctx
+
+    def int_value(x):
+        """the integer a label is equal to (python: 1.0 == 1 and hash(1.0) == hash(1)), or None for a label that equals no int"""
+        if isinstance(x, bool):
+            return int(x)
+        if isinstance(x, int) or (isinstance(x, z3.ArithRef) and x.is_int()):
+            return x
+        if isinstance(x, FloatV):
+            return x.i
+        if isinstance(x, float) and x.is_integer():
+            return int(x)
+        return None
+
+    def same_label(x, y):
+        a, b = int_value(x), int_value(y)
+        if a is not None and b is not None:
+            return S._t(a) == S._t(b)
+        if a is None and b is None:
+            if isinstance(x, z3.ExprRef) and isinstance(y, z3.ExprRef):
+                return x == y
+            return x == y if not (sym(x) or sym(y)) else False
+        return False
+
+    def distinct(xs):
+        return And(True, *[Not(same_label(a, b)) for i, a in enumerate(xs) for b in xs[i + 1:]])
+
+    def site_ok(name, o, nw):
+        native = not isinstance(o.tape, Rec)
+        if native:
+            call = nw.tape.seen
+            static = list(o.tape.wires)
+        else:
+            call = pcell["ctx"].ghost.get("call")
+            static = list(o.tape.f["wires"])
+        if not call:
+            return False
+        args, kw = call
+        if len(args) != 1 or set(kw) - {"zeroed", "min_int", "allow_resets", "any_state"} or kw.get("any_state", ()) not in ((), None):
+            return False
+        dev = list(o.wires) if o.wires is not None else []
+        zeroed = kw.get("zeroed", ())
+        zeroed = list(zeroed.items) if isinstance(zeroed, PyList) else list(zeroed)
+        mi = kw.get("min_int")
+        same_tape = args[0] is nw.tape
+        resets = (kw.get("allow_resets") is nw.allow_resets) or (kw.get("allow_resets") == o.allow_resets and not sym(kw.get("allow_resets")))
+        if dev:
+            # Given = the device wires that are not wires of the tape, innermost-last (reversed), no integers are minted
+            idx = []
+            for z in zeroed:
+                k = [i for i, w in enumerate(dev) if w is z] if not native else [i for i, w in enumerate(dev) if w == z]
+                if not k:
+                    return False
+                idx.append(k[0])
+            ordered = all(a > b for a, b in zip(idx, idx[1:]))
+            disjoint = And(True, *[Not(same_label(z, t)) for z in zeroed for t in static])
+            complete = And(True, *[Or(i in idx, Or(False, *[same_label(w, t) for t in static])) for i, w in enumerate(dev)])
+            return And(same_tape and resets and ordered and mi is None, disjoint, complete)
+        # no device wires: nothing is handed in, integers are minted above every static wire that is equal to an integer
+        ints = [int_value(t) for t in static if int_value(t) is not None]
+        if mi is None or zeroed:
+            return False
+        fresh_ = And(True, *[S._t(mi) > S._t(i) for i in ints])
+        # exactly the documented choice: one more than the largest integer wire of the tape (0 when there is none)
+        real_ints = [t for t in static if int_value(t) is not None and not isinstance(t, (float, FloatV))]
+        if not real_ints:
+            exact = S._t(mi) == 0
+        else:
+            exact = And(Or(False, *[S._t(mi) == S._t(t) + 1 for t in real_ints]), *[S._t(mi) > S._t(t) for t in real_ints])
+        return And(same_tape and resets, exact, fresh_)
+
+    def site_call(mod, args):
+        tape = args["tape"]
+
+        def recorder(*a, **kw):
+            tape.seen = (list(a), dict(kw))
+            return "RESULT"
+        saved = mod.resolve_dynamic_wires
+        mod.resolve_dynamic_wires = recorder
+        try:
+            return mod.device_resolve_dynamic_wires.tape_transform(tape, args["wires"], args["allow_resets"])
+        finally:
+            mod.resolve_dynamic_wires = saved
+
+    def site_gen(rng, m):
+        m = dict(m)
+        tw = m["tape"].get("wires") if isinstance(m["tape"], dict) else ()
+        m["tape"] = NTape(wires=list(tw or ()))
+        if m.get("wires") is not None:
+            m["wires"] = tuple(m["wires"])
+        return m
+
+    def site_requires(a):
+        dev = list(a.wires) if a.wires is not None else []
+        static = list(a.tape.f["wires"]) if isinstance(a.tape, Rec) else list(a.tape.wires)
+        return And(distinct(dev), distinct(static))          # Wires objects hold no duplicates
+    KIND = {"i": Int, "s": Label, "f": FInt}
+    tape_shapes = ["", "i", "s", "ii", "is", "si", "ss"]
+    dev_shapes = [None, "", "i", "s", "ii", "is", "si", "ss"]
+    site_cases = []
+    for ts in tape_shapes + ["f"]:
+        for ds in (dev_shapes if ts != "f" else [None]):
+            dev_t = NoneV if ds is None else (T("const", ()) if ds == "" else TupleT(*[KIND[c] for c in ds]))
+            tape_t = T("rec", "Tape", override={"wires": T("const", ()) if ts == "" else TupleT(*[KIND[c] for c in ts])})
+            lab = f"tape wires [{','.join(ts)}], device wires {'None' if ds is None else '[' + ','.join(ds) + ']'}"
+            cs = Case(lab, {"tape": tape_t, "wires": dev_t, "allow_resets": Bool}, ghost=site_ghost, requires=site_requires,
+                      ensures=lambda o, r, nw: And(r is RESULT or r == "RESULT", site_ok(None, o, nw)),
+                      raises={"AllocationError": lambda o: True}, native_call=site_call, native_gen=site_gen, size_bounded=True)
+            cs.exc_ensures = site_ok
+            site_cases.append((cs, "F24" if ts == "f" else None))
+    for cs, fid in site_cases:
+        fc = FnContract(wp, "device_resolve_dynamic_wires", [cs])
+        plan.fn_under_contract(PRE, "device_resolve_dynamic_wires")
+        for ob in obligations_for(PID, fc, tier, finding=fid):
+            plan.add(ob)
+    plan.size_bounds = ["device call site: tapes with 0..2 static wires and devices with no / 0..2 wires, every wire an int label or a non-int label "
+                        "(all VALUES symbolic); one extra shape with a float label of integral value (finding F24)"]
+    plan.notes["F24"] = ("device_resolve_dynamic_wires picks min_int = 1 + max(int wires); a static wire labelled by a float with integral value "
+                         "(1.0 == 1, same hash) is ignored by isinstance(i, int), so a minted wire can alias it")
 
     for fc in contracts:
         plan.fn_under_contract(fc.world.file, fc.qualname)
